@@ -12,6 +12,9 @@ from __future__ import annotations
 
 METAS = ["<", ">", '"', "'"]
 XML_KEYS = ["id", "class", "title", "data-x"]
+# metacharacters an attribute NAME may carry: the documented key validation of
+# xmlattr rejects only space, '/', '>' and '='
+KEY_METAS = ["<", "<", '"', "'", "&"]
 
 # positional parameter names (from the filter documentation) used in mechanism keys
 FILTER_PARAMS = {
@@ -81,6 +84,59 @@ class Gen:
             parts += groups[2:]
             return " ".join(parts)
         raise AssertionError(hint)
+
+    def key_shape(self):
+        """An attribute name that passes xmlattr's documented key validation but
+        carries nonce-bracketed metacharacters."""
+        r = self.rng
+        n = self.nonce()
+        metas = [r.choice(KEY_METAS) for _ in range(r.randint(1, 2))]
+        if all(m == "&" for m in metas):
+            metas[0] = r.choice(["<", '"', "'"])
+        return r.choice(["", "", "data-", "x:", "on"]) + "".join(n + m + n for m in metas)
+
+    def xml_dict(self, depth):
+        """Subject of an xmlattr filter whose KEYS are data-controlled or nonce'd
+        literals: dict display with data / literal keys, a data dict, dict(**...)
+        / dict(...) calls over either, optionally through a {% set %}."""
+        r = self.rng
+        form = r.choice(["display", "display", "datadict", "datadict", "call", "call"])
+
+        def display():
+            kv = []
+            for _ in range(r.randint(1, 2)):
+                ks = self.key_shape()
+                if r.random() < 0.5:
+                    key = ["lit", ks]
+                else:
+                    nm = self.name("d")
+                    self.data[nm] = ks
+                    key = ["d", nm]
+                kv.append([key, self.S_plain(depth - 1) if r.random() < 0.6 else ["klit", "ab"]])
+            if r.random() < 0.4:
+                kv.insert(r.randint(0, len(kv)), [r.choice(XML_KEYS), self.S_plain(depth - 1)])
+            return ["dict", kv]
+
+        def datadict():
+            nm = self.name("D")
+            dd = {}
+            if r.random() < 0.3:
+                dd[r.choice(XML_KEYS)] = self.shape("plain")
+            for _ in range(r.randint(1, 2)):
+                dd[self.key_shape()] = self.shape("plain") if r.random() < 0.6 else "ab"
+            self.data[nm] = dd
+            return ["D", nm]
+
+        if form == "display":
+            e = display()
+        elif form == "datadict":
+            e = datadict()
+        else:
+            inner = datadict() if r.random() < 0.6 else display()
+            e = ["dictof", r.choice(["splat", "splat", "copy", "items", "items_method"]), inner]
+        if r.random() < 0.25:
+            e = ["cap", "setexpr", e]
+        return e
 
     def name(self, prefix):
         self.k += 1
@@ -309,6 +365,9 @@ class Gen:
                 args.append(["rel", self.leaf("short")])
             return ["f", "urlize", s, args], True
         if f == "xmlattr":
+            if r.random() < 0.5:
+                d = self.xml_dict(d1)
+                return ["f", "xmlattr", d, ([[None, ["bool", False]]] if r.random() < 0.2 else [])], True
             keys = r.sample(XML_KEYS, r.randint(1, 3))
             d = ["dict", [[k, self.S_plain(d1 - 1)] for k in keys]]
             return ["f", "xmlattr", d, ([[None, ["bool", False]]] if r.random() < 0.2 else [])], True
